@@ -67,6 +67,10 @@ def configs(spec, rng, nextra):
             # implicit components, rows/cols partials inside, under every solver and jacobian format
             cfg['approx'] = True
             cfg['approx_any'] = True
+        if not cpl and rng.random() < 0.12:
+            # totals of the whole model by (exact) finite differences, with or without a total colouring
+            cfg.update({'approx_model': True, 'coloring': rng.random() < 0.5, 'lin': 'runonce', 'jac': None,
+                        'approx': False, 'approx_any': False, 'rhs': None})
         if cfg['lin'] in ('runonce', 'lbgs', 'lbjac'):
             cfg['jac'] = None           # block solvers do not support assembled jacobians
         if cfg['lin'].startswith('direct') and cfg['jac'] == 'csr':
